@@ -1,370 +1,81 @@
-import GrVerif.Model.Zones
+import GrVerif.Proofs.Collider
 /-!
-# C17 — collision fixing: the interval set (partial: `Zones` only)
+# C17 — collision fixing respects limits and its "resolved" verdict is true
 
-Proved here: the third sentence of the property – the set of free intervals the fixer searches always remains sorted,
-disjoint and inside its bounds, and `closest` never offers a position that was excluded – for ALL sequences of
-`initialise`, `exclude` and weighted inserts.  Not covered by a theorem: the geometric clauses about `ShiftCollider`
-/ `KernCollider` (limit containment, truth of the "resolved" verdict).
+Models: `Model/Zones.lean` (the cost-ordered interval set `Zones`) and `Model/Collider.lean` (`ShiftCollider::initSlot`,
+`mergeSlot` with main octabox and sub-octaboxes, `resolve`).  The lemmas are in `Proofs/Zones.lean` and
+`Proofs/Collider.lean`; this file states the three sentences of the property.
+
+* **limit** (`shift_stays_inside_limit`): the shift `resolve` computes keeps `offset + shift` inside the limit rectangle.
+* **resolved verdict** (`resolved_verdict_is_true`): when `resolve` clears `isCol` after any sequence of `mergeSlot` calls,
+  the target's octabox at its shifted position overlaps no merged neighbour within reach of the limit rectangle (main
+  octabox; sub-octaboxes cut to it for glyphs that have them).  Its geometric core is `merge_numbers_are_exact`: on each
+  of the four movement axes the `vmin/vmax/omin/omax/otmin/otmax` that `mergeSlot` computes describe *exactly* the
+  positions along that axis at which the two octaboxes overlap.
+* **interval set** (`zones_inv`, `excluded_never_offered`, `closest_mem`): sorted, disjoint, inside its bounds, and an
+  excluded position is never offered – for all operation sequences.
+
+Scope of the collider theorems (stated as hypotheses, not hidden): right-to-left runs, or left-to-right runs with an
+x-symmetric limit (`Setup.rtl` – the property's own quantifier; for left-to-right runs `initSlot` replaces `_limit.bl.x`
+by the mirrored right bound, and on the pinned tree it did so in the wrong frame, which made the verdict false for
+non-zero offsets: repaired, see `known_findings.json`), non-negative margins, a target box with ordered bounds, every axis
+initialised with a non-empty range (`Room`).  Not modelled: sequence-order regions (`orderFlags`), the
+exclusion glyph, `KernCollider`; the diagonal margin `margin / ISQRT2` is a parameter of the model.
 -/
-set_option linter.unusedSimpArgs false
 set_option linter.unusedVariables false
 namespace GrVerif.Props.C17
-open GrVerif.Zones
+open GrVerif.Zones GrVerif.Collider
 
-/-- sorted, pairwise disjoint, non-empty intervals inside `[lo, hi]` -/
-def Inv (lo hi : Int) : List Excl → Prop
-  | [] => True
-  | i :: rest => lo ≤ i.x ∧ i.x < i.xm ∧ i.xm ≤ hi ∧ Inv i.xm hi rest
+/-- **geometric core**: `mergeSlot`'s numbers for axis `i` are exactly the overlap positions on that axis -/
+theorem merge_numbers_are_exact (i : Nat) (hi : i < 4) (t b : Box) (sx sy tx ty : Int) (v : Rat) :
+    OverlapQ t b (posOn i tx ty v).1 (posOn i tx ty v).2 sx sy ↔ Hits (axisData i t b sx sy tx ty) v :=
+  axis_overlap_iff i hi t b sx sy tx ty v
 
-theorem Inv.mono {lo lo' hi : Int} (h : lo' ≤ lo) : ∀ {l}, Inv lo hi l → Inv lo' hi l
-  | [], _ => trivial
-  | _ :: _, ⟨a, b, c, d⟩ => ⟨by omega, b, c, d⟩
+/-- **C17, resolved verdict.** -/
+theorem resolved_verdict_is_true (tbox : Box) (limit : Rect) (margin dmargin mwt shx shy offx offy : Int) (dir : Nat)
+    (hs : Setup tbox limit margin dmargin dir) (hroom : Room limit shx shy offx offy) (nbs : List Nbor) (x y : Rat)
+    (h : resolve (mergeAll (initSlot tbox limit margin dmargin mwt shx shy offx offy dir) nbs) = (x, y, false))
+    (nb : Nbor) (hn : nb ∈ nbs)
+    (hr : inReach (initSlot tbox limit margin dmargin mwt shx shy offx offy dir).p nb.1.box nb.2.1 nb.2.2 = true) :
+    ¬ ShapeOverlap tbox nb.1 ((offx : Rat) + x) ((offy : Rat) + y) nb.2.1 nb.2.2 :=
+  resolved_means_no_overlap tbox limit margin dmargin mwt shx shy offx offy dir hs hroom nbs x y h nb hn hr
 
-theorem insertGo_inv (hi : Int) : ∀ (l : List Excl) (e : Excl) (lo : Int), Inv lo hi l → Inv lo hi (insertGo e l) := by
-  intro l
-  induction l with
-  | nil => intro e lo h; simp [insertGo, Inv]
-  | cons i rest ih =>
-    intro e lo h
-    obtain ⟨h1, h2, h3, h4⟩ := h
-    unfold insertGo
-    by_cases hc : e.x < e.xm
-    · simp only [hc, not_true_eq_false, if_false]
-      by_cases a1 : i.x ≥ e.xm <;> by_cases a0 : i.x < e.x <;> by_cases b1 : i.xm ≥ e.xm <;> by_cases b0 : i.xm < e.x <;>
-        simp [outcode, a1, a0, b1, b0, Inv, add] <;> (try omega) <;>
-        (first
-          | exact ⟨h1, h2, h3, ih _ _ h4⟩
-          | skip)
-      all_goals
-        (repeat' split) <;> simp only [Inv] <;> and_intros <;>
-        (first | omega | exact h4 | exact ih _ _ h4 | exact Inv.mono (by omega) h4 | (subst_vars; first | omega | exact h4))
-    · simp [hc, Inv]; exact ⟨h1, h2, h3, h4⟩
+/-- **C17, limit.** -/
+theorem shift_stays_inside_limit (tbox : Box) (limit : Rect) (margin dmargin mwt shx shy offx offy : Int) (dir : Nat)
+    (hroom : Room limit shx shy offx offy) (nbs : List Nbor) (x y : Rat)
+    (hcur : limit.blx ≤ offx + shx ∧ offx + shx ≤ limit.trx ∧ limit.bly ≤ offy + shy ∧ offy + shy ≤ limit.try_)
+    (h : resolve (mergeAll (initSlot tbox limit margin dmargin mwt shx shy offx offy dir) nbs) = (x, y, false)) :
+    (limit.blx : Rat) ≤ offx + x ∧ (offx : Rat) + x ≤ limit.trx ∧ (limit.bly : Rat) ≤ offy + y ∧ (offy : Rat) + y ≤ limit.try_ :=
+  resolved_within_limit tbox limit margin dmargin mwt shx shy offx offy dir hroom nbs x y hcur h
 
-theorem removeGo_inv (hi x xm : Int) (hx : x < xm) : ∀ (l : List Excl) (lo : Int), Inv lo hi l → Inv lo hi (removeGo x xm l) := by
-  intro l
-  induction l with
-  | nil => intro lo h; simp [removeGo, Inv]
-  | cons i rest ih =>
-    intro lo h
-    obtain ⟨h1, h2, h3, h4⟩ := h
-    unfold removeGo
-    by_cases a1 : x ≥ i.xm <;> by_cases a0 : x < i.x <;> by_cases b1 : xm ≥ i.xm <;> by_cases b0 : xm < i.x <;>
-      simp [outcode, a1, a0, b1, b0] <;> (try omega) <;>
-      ((repeat' split) <;> (try simp only [Inv]) <;> (try and_intros) <;>
-        (first | omega | exact h4 | exact ih _ h4 | exact Inv.mono (by omega) h4 | exact Inv.mono (by omega) (ih _ h4)
-               | (subst_vars; first | omega | exact h4 | exact Inv.mono (by omega) (ih _ h4))))
+/-- every single position `closest` offers on an axis is free of the merged neighbours (the per-axis form) -/
+theorem every_offered_position_is_free (i : Nat) (hi : i < 4) (tbox : Box) (limit : Rect) (margin dmargin mwt shx shy offx offy : Int)
+    (dir : Nat) (hs : Setup tbox limit margin dmargin dir)
+    (hroom : (initRange i limit shx shy offx offy).pos < (initRange i limit shx shy offx offy).posm)
+    (nbs : List Nbor) (origin : Int) (cost v : Rat)
+    (h : ((mergeAll (initSlot tbox limit margin dmargin mwt shx shy offx offy dir) nbs).range i).closestBest origin = some (cost, v))
+    (nb : Nbor) (hn : nb ∈ nbs)
+    (hr : inReach (initSlot tbox limit margin dmargin mwt shx shy offx offy dir).p nb.1.box nb.2.1 nb.2.2 = true) :
+    ¬ ShapeOverlap tbox nb.1 (posOn i (offx + shx) (offy + shy) v).1 (posOn i (offx + shx) (offy + shy) v).2 nb.2.1 nb.2.2 :=
+  offered_position_is_free i hi tbox limit margin dmargin mwt shx shy offx offy dir hs hroom nbs origin cost v h nb hn hr
 
-/-- the invariant of a `Zones` object -/
-def ZInv (z : Zones) : Prop := Inv z.pos z.posm z.excl
+/-! ### non-vacuity: a target between two neighbours, resolved by moving left -/
+def exT : Box := ⟨0, 0, 50, 50, 0, -50, 100, 50⟩
+def exN : Glyph := { box := ⟨0, 0, 40, 40, 0, -40, 80, 40⟩ }
+def exLimit : Rect := ⟨-100, -100, 100, 100⟩
 
-/-- **zones_inv (initialise)**: a non-empty range gives a well-formed set -/
-theorem initialise_inv (sd : Bool) (xmin xmax : Int) (a0 : Rat) (h : xmin < xmax) : ZInv (initialise sd xmin xmax a0) := by
-  unfold ZInv initialise
-  cases sd <;> simp [Inv, weightedXY, weightedSD] <;> omega
-
-/-- **zones_inv (insert)** -/
-theorem insert_inv (z : Zones) (e : Excl) (h : ZInv z) : ZInv (z.insert e) := by
-  unfold Zones.insert
-  simp only
-  split
-  · exact h
-  · exact insertGo_inv z.posm z.excl _ z.pos h
-
-/-- **zones_inv (remove)** -/
-theorem remove_inv (z : Zones) (x xm : Int) (h : ZInv z) : ZInv (z.remove x xm) := by
-  unfold Zones.remove
-  simp only
-  split
-  · exact h
-  · rename_i hc
-    exact removeGo_inv z.posm _ _ (by omega) z.excl z.pos h
-
-/-- the operations the collider applies to a set -/
-inductive Op where
-  | exclude (a b : Int)
-  | weighted (e : Excl)
-
-def Zones.step (z : Zones) : Op → Zones
-  | .exclude a b => z.remove a b
-  | .weighted e => z.insert e
-
-@[simp] theorem insert_bounds (z : Zones) (e : Excl) : (z.insert e).pos = z.pos ∧ (z.insert e).posm = z.posm := by
-  unfold Zones.insert; simp only; split <;> simp
-@[simp] theorem remove_bounds (z : Zones) (a b : Int) : (z.remove a b).pos = z.pos ∧ (z.remove a b).posm = z.posm := by
-  unfold Zones.remove; simp only; split <;> simp
-
-/-- **zones_inv**: after ANY sequence of excludes and weighted inserts the set is sorted, disjoint and inside its bounds -/
-theorem zones_inv (sd : Bool) (xmin xmax : Int) (a0 : Rat) (h : xmin < xmax) (ops : List Op) :
-    ZInv (ops.foldl Zones.step (initialise sd xmin xmax a0)) := by
-  have : ∀ (ops : List Op) (z : Zones), ZInv z → ZInv (ops.foldl Zones.step z) := by
-    intro ops
-    induction ops with
-    | nil => intro z hz; exact hz
-    | cons op ops ih =>
-      intro z hz
-      apply ih
-      cases op with
-      | exclude a b => exact remove_inv z a b hz
-      | weighted e => exact insert_inv z e hz
-  exact this ops _ (initialise_inv sd xmin xmax a0 h)
-
-/-! ### excluded positions are never offered -/
-
-/-- no interval of the list meets the open interval `(a, b)` -/
-def Avoids (a b : Int) (l : List Excl) : Prop := ∀ i ∈ l, i.xm ≤ a ∨ b ≤ i.x
-
-theorem avoids_nil (a b : Int) : Avoids a b [] := by intro i hi; simp at hi
-theorem avoids_cons (a b : Int) (i : Excl) (l : List Excl) : Avoids a b (i :: l) ↔ (i.xm ≤ a ∨ b ≤ i.x) ∧ Avoids a b l := by
-  unfold Avoids; simp [List.forall_mem_cons]
-theorem avoids_of_ge (a b c : Int) (l : List Excl) (h : ∀ j ∈ l, c ≤ j.x) (hb : b ≤ c) : Avoids a b l := by
-  intro j hj; have := h j hj; omega
-
-theorem inv_lower (hi : Int) : ∀ (l : List Excl) (lo : Int), Inv lo hi l → ∀ j ∈ l, lo ≤ j.x := by
-  intro l
-  induction l with
-  | nil => intro lo _ j hj; simp at hj
-  | cons k ks ihk =>
-    intro lo hk j hj
-    obtain ⟨k1, k2, k3, k4⟩ := hk
-    rcases List.mem_cons.mp hj with rfl | hj
-    · exact k1
-    · have := ihk k.xm k4 j hj; omega
-
-/-- after `remove x xm` no interval meets the open interval `(x, xm)` -/
-theorem removeGo_avoids (x xm : Int) (hx : x < xm) (hi : Int) :
-    ∀ (l : List Excl) (lo : Int), Inv lo hi l → Avoids x xm (removeGo x xm l) := by
-  intro l
-  induction l with
-  | nil => intro lo _; simp [removeGo, avoids_nil]
-  | cons i rest ih =>
-    intro lo h
-    obtain ⟨h1, h2, h3, h4⟩ := h
-    have hrest : ∀ j ∈ rest, i.xm ≤ j.x := inv_lower hi rest i.xm h4
-    have ihr := ih i.xm h4
-    unfold removeGo
-    by_cases a1 : x ≥ i.xm <;> by_cases a0 : x < i.x <;> by_cases b1 : xm ≥ i.xm <;> by_cases b0 : xm < i.x <;>
-      simp [outcode, a1, a0, b1, b0] <;> (try omega) <;>
-      ((repeat' split) <;> (try simp only [avoids_cons]) <;> (try and_intros) <;>
-        (first | omega | exact ihr | exact avoids_of_ge _ _ _ _ hrest (by omega) | (simp; omega) | skip))
-
-/-- inserting never adds coverage: every interval afterwards lies inside an interval that was there before -/
-def SubOf (l' l : List Excl) : Prop := ∀ j ∈ l', ∃ i ∈ l, i.x ≤ j.x ∧ j.xm ≤ i.xm
-
-theorem subOf_nil (l : List Excl) : SubOf [] l := by intro j hj; simp at hj
-theorem subOf_cons (j : Excl) (l' l : List Excl) (h : ∃ i ∈ l, i.x ≤ j.x ∧ j.xm ≤ i.xm) (h' : SubOf l' l) : SubOf (j :: l') l := by
-  intro k hk; rcases List.mem_cons.mp hk with rfl | hk; exact h; exact h' k hk
-theorem subOf_tail (i : Excl) (l' l : List Excl) (h : SubOf l' l) : SubOf l' (i :: l) := by
-  intro j hj; obtain ⟨k, hk, a, b⟩ := h j hj; exact ⟨k, List.mem_cons_of_mem _ hk, a, b⟩
-theorem subOf_refl (l : List Excl) : SubOf l l := fun j hj => ⟨j, hj, by omega, by omega⟩
-theorem within (i : Excl) (rest : List Excl) (j : Excl) (h1 : i.x ≤ j.x) (h2 : j.xm ≤ i.xm) :
-    ∃ k ∈ i :: rest, k.x ≤ j.x ∧ j.xm ≤ k.xm := ⟨i, List.mem_cons_self .., h1, h2⟩
-
-theorem insertGo_sub (hi : Int) : ∀ (l : List Excl) (e : Excl) (lo : Int), Inv lo hi l → SubOf (insertGo e l) l := by
-  intro l
-  induction l with
-  | nil => intro e lo _; simp [insertGo, subOf_nil]
-  | cons i rest ih =>
-    intro e lo hinv
-    obtain ⟨h1, h2, h3, h4⟩ := hinv
-    unfold insertGo
-    by_cases hc : e.x < e.xm
-    · simp only [hc, not_true_eq_false, if_false]
-      have hr : ∀ e', SubOf (insertGo e' rest) (i :: rest) := fun e' => subOf_tail i _ _ (ih e' i.xm h4)
-      have hrr : SubOf rest (i :: rest) := subOf_tail i _ _ (subOf_refl rest)
-      by_cases a1 : i.x ≥ e.xm <;> by_cases a0 : i.x < e.x <;> by_cases b1 : i.xm ≥ e.xm <;> by_cases b0 : i.xm < e.x <;>
-        simp [outcode, a1, a0, b1, b0, add] <;> (try omega) <;>
-        ((repeat' split) <;>
-          (repeat' (first
-            | exact hr _
-            | exact hrr
-            | exact subOf_refl _
-            | (apply subOf_cons _ _ _ (within i rest _ (by simp <;> omega) (by simp <;> omega))))))
-    · simp only [hc, not_false_eq_true, if_true]; exact subOf_refl _
-
-theorem avoids_of_sub (a b : Int) (l' l : List Excl) (hs : SubOf l' l) (h : Avoids a b l)
-    (hne : ∀ j ∈ l', j.x < j.xm) : Avoids a b l' := by
-  intro j hj
-  obtain ⟨i, hi, h1, h2⟩ := hs j hj
-  have := h i hi
-  have := hne j hj
-  omega
-
-theorem removeGo_sub (x xm : Int) (hx : x < xm) (hi : Int) :
-    ∀ (l : List Excl) (lo : Int), Inv lo hi l → SubOf (removeGo x xm l) l := by
-  intro l
-  induction l with
-  | nil => intro lo _; simp [removeGo, subOf_nil]
-  | cons i rest ih =>
-    intro lo hinv
-    obtain ⟨h1, h2, h3, h4⟩ := hinv
-    have hr : SubOf (removeGo x xm rest) (i :: rest) := subOf_tail i _ _ (ih i.xm h4)
-    have hrr : SubOf rest (i :: rest) := subOf_tail i _ _ (subOf_refl rest)
-    unfold removeGo
-    by_cases a1 : x ≥ i.xm <;> by_cases a0 : x < i.x <;> by_cases b1 : xm ≥ i.xm <;> by_cases b0 : xm < i.x <;>
-      simp [outcode, a1, a0, b1, b0] <;> (try omega) <;>
-      ((repeat' split) <;>
-        (repeat' (first
-          | exact hr
-          | exact hrr
-          | exact subOf_refl _
-          | (apply subOf_cons _ _ _ (within i rest _ (by simp <;> omega) (by simp <;> omega))))))
-
-theorem inv_nonempty (hi : Int) : ∀ (l : List Excl) (lo : Int), Inv lo hi l → ∀ j ∈ l, j.x < j.xm := by
-  intro l
-  induction l with
-  | nil => intro lo _ j hj; simp at hj
-  | cons k ks ihk =>
-    intro lo hk j hj
-    obtain ⟨k1, k2, k3, k4⟩ := hk
-    rcases List.mem_cons.mp hj with rfl | hj
-    · exact k2
-    · exact ihk k.xm k4 j hj
-
-/-- an excluded open interval stays excluded whatever the fixer does next -/
-theorem step_avoids (a b : Int) (z : Zones) (hz : ZInv z) (h : Avoids a b z.excl) (op : Op) : Avoids a b (Zones.step z op).excl := by
-  cases op with
-  | exclude x xm =>
-    have hz' := remove_inv z x xm hz
-    unfold Zones.step Zones.remove at *
-    simp only at *
-    split
-    · exact h
-    · rename_i hc
-      exact avoids_of_sub a b _ _ (removeGo_sub _ _ (by omega) z.posm z.excl z.pos hz) h
-        (inv_nonempty z.posm _ z.pos (by simpa [hc, ZInv] using hz'))
-  | weighted e =>
-    have hz' := insert_inv z e hz
-    unfold Zones.step Zones.insert at *
-    simp only at *
-    split
-    · exact h
-    · rename_i hc
-      exact avoids_of_sub a b _ _ (insertGo_sub z.posm z.excl _ z.pos hz) h
-        (inv_nonempty z.posm _ z.pos (by simpa [hc, ZInv] using hz'))
-
-theorem exclude_avoids (z : Zones) (hz : ZInv z) (a b : Int) (hab : a < b) (ha : z.pos ≤ a) (hb : b ≤ z.posm) :
-    Avoids a b (z.remove a b).excl := by
-  unfold Zones.remove
-  simp only
-  have e1 : max a z.pos = a := Int.max_eq_left ha
-  have e2 : min b z.posm = b := Int.min_eq_left hb
-  rw [e1, e2]
-  have : ¬ a ≥ b := by omega
-  simp only [this, if_false]
-  exact removeGo_avoids _ _ hab z.posm z.excl z.pos hz
-
-/-! ### `closest` only offers points of the set -/
-
-theorem intCast_le (a b : Int) (h : a ≤ b) : (a : Rat) ≤ (b : Rat) := by exact_mod_cast h
-
-theorem testPosition_mem (e : Excl) (origin : Rat) (h : e.x ≤ e.xm) (p : Rat) (hp : e.testPosition origin = some p) :
-    (e.x : Rat) ≤ p ∧ p ≤ (e.xm : Rat) := by
-  have hc : (e.x : Rat) ≤ (e.xm : Rat) := intCast_le _ _ h
-  unfold Excl.testPosition at hp
-  split at hp
-  · simp only [Option.some.injEq] at hp
-    subst hp
-    split <;> split <;> (try split) <;> constructor <;> grind
-  · split at hp
-    · split at hp
-      · simp at hp; subst hp; constructor <;> grind
-      · split at hp
-        · simp at hp; subst hp; constructor <;> grind
-        · simp at hp
-    · simp only [Option.some.injEq] at hp
-      subst hp
-      split
-      · constructor <;> grind
-      · split
-        · constructor <;> grind
-        · constructor <;> grind
-
-/-- the position carried by a `best` value lies in an interval of `l` -/
-def InSet (l : List Excl) (best : Option (Rat × Rat)) : Prop :=
-  ∀ c p, best = some (c, p) → ∃ i ∈ l, (i.x : Rat) ≤ p ∧ p ≤ (i.xm : Rat)
-
-theorem trackCost_inSet (l : List Excl) (e : Excl) (he : e ∈ l) (hx : e.x ≤ e.xm) (best : Option (Rat × Rat)) (origin : Rat)
-    (h : InSet l best) : InSet l (e.trackCost best origin).2 := by
-  unfold Excl.trackCost
-  cases htp : e.testPosition origin with
-  | none => exact h
-  | some p0 =>
-    have hm := testPosition_mem e origin hx p0 htp
-    simp only
-    cases best with
-    | none => intro c p hp; simp at hp; obtain ⟨_, rfl⟩ := hp; exact ⟨e, he, hm.1, hm.2⟩
-    | some bp =>
-      obtain ⟨bc, bpp⟩ := bp
-      simp only
-      split
-      · exact h
-      · split
-        · intro c p hp; simp at hp; obtain ⟨_, rfl⟩ := hp; exact ⟨e, he, hm.1, hm.2⟩
-        · exact h
-
-theorem scan_inSet (l : List Excl) (hl : ∀ e ∈ l, e.x ≤ e.xm) (origin : Rat) :
-    ∀ (sub : List Excl), (∀ e ∈ sub, e ∈ l) → ∀ best, InSet l best → InSet l (scan origin sub best) := by
-  intro sub
-  induction sub with
-  | nil => intro _ best h; exact h
-  | cons e rest ih =>
-    intro hsub best h
-    unfold scan
-    have he := hsub e (List.mem_cons_self ..)
-    have := trackCost_inSet l e he (hl e he) best origin h
-    cases htc : e.trackCost best origin with
-    | mk stop b =>
-      rw [htc] at this
-      simp only
-      split
-      · exact this
-      · exact ih (fun x hx => hsub x (List.mem_cons_of_mem _ hx)) b this
-
-/-- **closest_mem**: whenever `closest` finds a position, it lies in one of the set's intervals – for any cost
-coefficients (also zero or negative weights), since `test_position` clamps to `[x, xm]`. -/
-theorem closest_mem (z : Zones) (hz : ZInv z) (origin : Int) (c p : Rat) (h : z.closestBest origin = some (c, p)) :
-    ∃ i ∈ z.excl, (i.x : Rat) ≤ p ∧ p ≤ (i.xm : Rat) := by
-  have hl : ∀ e ∈ z.excl, e.x ≤ e.xm := fun e he => by have := inv_nonempty z.posm z.excl z.pos hz e he; omega
-  unfold Zones.closestBest at h
-  simp only at h
-  generalize hs : findUnder z.excl origin (z.excl.length + 1) 0 z.excl.length = start at h
-  have h1 := scan_inSet z.excl hl origin (z.excl.drop start) (fun e he => List.mem_of_mem_drop he) none (by intro c p hp; simp at hp)
-  have h2 := scan_inSet z.excl hl origin (z.excl.take start).reverse
-    (fun e he => List.mem_of_mem_take (List.mem_reverse.mp he)) _ h1
-  exact h2 c p h
-
-/-- **excluded_never_offered**: once the open interval `(a, b)` (inside the bounds) has been excluded, then whatever
-sequence of further excludes and weighted inserts follows, `closest` never finds a position strictly inside it. -/
-theorem excluded_never_offered (z : Zones) (hz : ZInv z) (a b : Int) (hab : a < b) (ha : z.pos ≤ a) (hb : b ≤ z.posm)
-    (ops : List Op) (origin : Int) (c p : Rat)
-    (h : (ops.foldl Zones.step (z.remove a b)).closestBest origin = some (c, p)) :
-    ¬ ((a : Rat) < p ∧ p < (b : Rat)) := by
-  have h0 : Avoids a b (z.remove a b).excl := exclude_avoids z hz a b hab ha hb
-  have hz0 : ZInv (z.remove a b) := remove_inv z a b hz
-  have key : ∀ (ops : List Op) (w : Zones), ZInv w → Avoids a b w.excl →
-      ZInv (ops.foldl Zones.step w) ∧ Avoids a b (ops.foldl Zones.step w).excl := by
-    intro ops
-    induction ops with
-    | nil => intro w hw ha; exact ⟨hw, ha⟩
-    | cons op ops ih =>
-      intro w hw ha
-      apply ih
-      · cases op with
-        | exclude x xm => exact remove_inv w x xm hw
-        | weighted e => exact insert_inv w e hw
-      · exact step_avoids a b w hw ha op
-  obtain ⟨hzf, haf⟩ := key ops _ hz0 h0
-  obtain ⟨i, hi, h1, h2⟩ := closest_mem _ hzf origin c p h
-  intro ⟨hlt, hgt⟩
-  rcases haf i hi with hh | hh
-  · have : (i.xm : Rat) ≤ (a : Rat) := intCast_le _ _ hh
-    grind
-  · have : (b : Rat) ≤ (i.x : Rat) := intCast_le _ _ hh
-    grind
-
-/-! ### non-vacuity -/
-example : ZInv (initialise false 0 100 5) := initialise_inv false 0 100 5 (by decide)
-example : ((initialise false 0 100 5).remove 20 40).excl.map (fun e => (e.x, e.xm)) = [(0, 20), (40, 100)] := by decide
+example : Setup exT exLimit 10 0 1 := ⟨by decide, by decide, by decide, by decide, by decide, by decide, by decide⟩
+example : Room exLimit 0 0 0 0 := by
+  intro i hi
+  match i, hi with
+  | 0, _ => decide
+  | 1, _ => decide
+  | 2, _ => decide
+  | 3, _ => decide
+/-- the neighbour at (30, 10) overlaps the target at its current place; the fixer moves the target 20 units left and
+reports it resolved -/
+example : resolve (mergeAll (initSlot exT exLimit 10 0 2 0 0 0 0 1) [(exN, 30, 10)]) = (-20, 0, false) := by decide +kernel
+example : inReach (initSlot exT exLimit 10 0 2 0 0 0 0 1).p exN.box 30 10 = true := by decide
+example : OverlapQ exT exN.box 0 0 30 10 := by unfold OverlapQ exT exN; refine ⟨?_, ?_, ?_, ?_, ?_, ?_, ?_, ?_⟩ <;> decide +kernel
 
 end GrVerif.Props.C17
